@@ -3,6 +3,7 @@
    Model: model/C18_Inbounds.v (socks5/server.go + txthinking/socks5 readers, http/server.go, proxymux/mux.go). *)
 From Hy Require Import model.C18_Inbounds proof.C18_Streams proof.C18_Gate proof.C18_Mux.
 From Hy Require Import lib.Harness corr.C18_Corr model.C18_Trace proof.C18_Replay.
+From Hy Require Import model.C18_Relay proof.C18_Relay.
 From Coq Require Import ZArith.
 Local Open Scope N_scope.
 
@@ -278,3 +279,68 @@ Theorem C18_accepted_history_snapshot : forall l1 hs conns subs bc l2,
            (forall more m', c18_mrun c18_now m more = Some m' -> c18_get_conn m' c = Some (CHanded b s))).
 Proof. exact replay_snapshot. Qed.
 Print Assumptions C18_accepted_history_snapshot.
+
+(* ---- relay phase (handleTCP / handleConnect after the dial): model/C18_Relay.v, the two io.Copy loops with
+   their buffers explicit, every interleaving, every behaviour of the two conns (any chunking, zero-length
+   reads, data together with EOF or with another error, refused and short Writes) ---- *)
+
+(* The two directions are independent byte streams.  Strike every action of the other direction (and the
+   parent's Close) from ANY run: what remains is a run, and in it direction d is in the same state, holds the
+   same buffer, has taken the same bytes from its source and has handed the same bytes to its sink.  A
+   direction's output depends on that direction's input alone. *)
+Theorem C18_relay_direction_independent : forall k d tr s,
+  rl_run k false rl_init tr = Some s ->
+  exists t, rl_run k false rl_init (filter (rl_is_dir d) tr) = Some t /\
+            rl_pc_of d t = rl_pc_of d s /\ rl_buf_of false d t = rl_buf_of false d s /\
+            rl_src d (filter (rl_is_dir d) tr) = rl_src d tr /\ rl_snk d (filter (rl_is_dir d) tr) = rl_snk d tr.
+Proof. exact relay_direction_independent. Qed.
+Print Assumptions C18_relay_direction_independent.
+
+(* In every run, in each direction, what the sink accepted is a prefix of what the source handed out: in
+   order, nothing replaced, duplicated or invented. *)
+Theorem C18_relay_in_order : forall k d tr s,
+  rl_run k false rl_init tr = Some s -> exists rest, rl_src d tr = rl_snk d tr ++ rest.
+Proof. exact relay_prefix. Qed.
+Print Assumptions C18_relay_in_order.
+
+(* ... and nothing is missing whenever io.Copy's loop is back at its Read, or has ended on its source's EOF -
+   the bytes that arrived together with the EOF included. *)
+Theorem C18_relay_complete : forall d tr s,
+  rl_run KIoCopy false rl_init tr = Some s ->
+  (rl_pc_of d s = PcRead \/ rl_pc_of d s = PcRet TNil) -> rl_snk d tr = rl_src d tr.
+Proof. exact relay_complete. Qed.
+Print Assumptions C18_relay_complete.
+
+(* Every Write hands its sink exactly the chunk that the SAME direction's latest Read stored, whatever the
+   other direction read or wrote in between (a Write may be in progress while the other direction reads). *)
+Theorem C18_relay_write_is_own_read : forall k d pre c nw ew s,
+  rl_run k false rl_init (pre ++ [RlWrite d c nw ew]) = Some s ->
+  exists bl er, rl_last d pre None = Some (RlRead d bl c er).
+Proof. exact relay_write_is_last_read. Qed.
+Print Assumptions C18_relay_write_is_own_read.
+
+(* The conns are closed only after one of the loops has left. *)
+Theorem C18_relay_close_after_return : forall k sh pre s,
+  rl_run k sh rl_init (pre ++ [RlClose]) = Some s ->
+  exists s1, rl_run k sh rl_init pre = Some s1 /\ (rl_is_ret (rl_pcU s1) || rl_is_ret (rl_pcD s1) = true).
+Proof. exact relay_close_after_return. Qed.
+Print Assumptions C18_relay_close_after_return.
+
+(* Both statements are false of neighbouring code.  With ONE buffer handed to both loops
+   (io.CopyBuffer(rConn, conn, buf) / io.CopyBuffer(conn, rConn, buf)) there is a run in which the upstream
+   is written the upstream's own bytes in place of the client's - and that trace is no run of the code as it is. *)
+Theorem C18_relay_shared_buffer_refuted :
+  (exists s, rl_run KIoCopy true rl_init ex_shared_run = Some s) /\
+  rl_src DUp ex_shared_run = [x01; x02] /\ rl_snk DUp ex_shared_run = [x09; x09] /\
+  (~ exists rest, rl_src DUp ex_shared_run = rl_snk DUp ex_shared_run ++ rest) /\
+  rl_run KIoCopy false rl_init ex_shared_run = None.
+Proof. exact relay_shared_buffer_refuted. Qed.
+Print Assumptions C18_relay_shared_buffer_refuted.
+
+(* With a loop that tests the Read error before it forwards (n, err := src.Read(buf); if err != nil { return }),
+   bytes that arrive together with io.EOF are dropped while the loop reports a clean end. *)
+Theorem C18_relay_errfirst_refuted :
+  exists s, rl_run KErrFirst false rl_init ex_errfirst_run = Some s /\ rl_pc_of DUp s = PcRet TNil /\
+            rl_src DUp ex_errfirst_run = [x47; x45; x54] /\ rl_snk DUp ex_errfirst_run = [].
+Proof. exact relay_errfirst_refuted. Qed.
+Print Assumptions C18_relay_errfirst_refuted.
